@@ -6,6 +6,7 @@ import (
 	"fmt"
 	"go/token"
 	"go/types"
+	"os"
 	"sort"
 	"strings"
 
@@ -87,6 +88,46 @@ func aliasDerives(v, src ssa.Value) bool {
 
 // addrRoots returns the base values an address (or pointer value) is derived from, following
 // field/index addressing and loads of pointers.
+// assocValue: v is a *packetConn that was just allocated or looked up in a map of associations.
+func assocValue(v ssa.Value, seen map[ssa.Value]bool) bool {
+	if v == nil || seen[v] {
+		return true
+	}
+	seen[v] = true
+	switch x := v.(type) {
+	case *ssa.Alloc:
+		return namedName(deref(x.Type())) == "layer4.packetConn"
+	case *ssa.Lookup:
+		m, ok := x.X.Type().Underlying().(*types.Map)
+		return ok && namedName(deref(m.Elem())) == "layer4.packetConn"
+	case *ssa.Extract:
+		return assocValue(x.Tuple, seen)
+	case *ssa.Phi:
+		for _, e := range x.Edges {
+			if !assocValue(e, seen) {
+				return false
+			}
+		}
+		return true
+	case *ssa.UnOp:
+		if a, ok := x.X.(*ssa.Alloc); ok && x.Op == token.MUL {
+			sts := storesTo(a)
+			if len(sts) == 0 {
+				return false
+			}
+			for _, sv := range sts {
+				if !assocValue(sv, seen) {
+					return false
+				}
+			}
+			return true
+		}
+	case *ssa.Const:
+		return x.Value == nil // nil
+	}
+	return false
+}
+
 func addrRoots(v ssa.Value) []ssa.Value {
 	seen := map[ssa.Value]bool{}
 	var out []ssa.Value
@@ -383,10 +424,10 @@ func runC08(c *Ctx, r *Report) {
 	c08R4(c, r, "C08.R4")
 	c08R5(c, r, "C08.R5")
 	c08R6(c, r, "C08.R6")
-	c02R6(c, r, "C08.R8") // a compiled handler chain cached across connections would capture one connection's continuation
-	c10R5(c, r, "C08.R9") // the shared round-robin position advances by one atomic read-modify-write per probe
+	c02R6(c, r, "C08.R8")      // a compiled handler chain cached across connections would capture one connection's continuation
+	c10R5(c, r, "C08.R9")      // the shared round-robin position advances by one atomic read-modify-write per probe
 	c17Handle(c, r, "C08.R10") // per-connection state of a handler (the throttle's own limiter) is built per connection, only the handler-wide limiter is shared
-	c13R3(c, r, "C08.R7") // the hand-off release discipline is also a C08 obligation (buffer shared across connections)
+	c13R3(c, r, "C08.R7")      // the hand-off release discipline is also a C08 obligation (buffer shared across connections)
 }
 
 func c08R1(c *Ctx, r *Report, rule string) {
@@ -897,6 +938,7 @@ func runC09(c *Ctx, r *Report) {
 	c09R7(c, r, "C09.R7")
 	c09R8(c, r, "C09.R8")
 	c09R9(c, r, "C09.R9")
+	c09Reader(c, r, "C09.R10")
 }
 
 func c09R1(c *Ctx, r *Report, rule string) {
@@ -962,17 +1004,45 @@ func c09R2(c *Ctx, r *Report, rule string) {
 		return
 	}
 	name := fname(fn)
-	isAddrString := func(v ssa.Value, structName, field string) bool {
+	var isAddrString func(v ssa.Value, structName, field string) bool
+	isAddrString = func(v ssa.Value, structName, field string) bool {
 		call, ok := v.(*ssa.Call)
 		if !ok || !call.Call.IsInvoke() || call.Call.Method.Name() != "String" {
 			return false
 		}
-		_, ok = loadOfField(call.Call.Value, structName, field)
-		return ok
+		if _, ok = loadOfField(call.Call.Value, structName, field); ok {
+			return true
+		}
+		// in a helper the address is a parameter: what every caller passes
+		if par, isPar := call.Call.Value.(*ssa.Parameter); isPar {
+			h := par.Parent()
+			sites, escapes := c.callSitesOf(h)
+			idx := paramIndex(h, par)
+			if escapes || len(sites) == 0 || idx < 0 {
+				return false
+			}
+			for _, cs := range sites {
+				if idx >= len(cs.Common().Args) {
+					return false
+				}
+				if _, ok := loadOfField(cs.Common().Args[idx], structName, field); !ok {
+					return false
+				}
+			}
+			return true
+		}
+		return false
 	}
 	n := 0
 	var tbl ssa.Value
-	for _, b := range fn.Blocks {
+	// servePacket and the helpers of its package it calls synchronously
+	var scan []*ssa.BasicBlock
+	for _, h := range sortedFuncs(c.reachSync(fn)) {
+		if h == fn || (h.Pkg == fn.Pkg && !token.IsExported(h.Name()) && !strings.Contains(fname(h), "(*Connection)")) {
+			scan = append(scan, h.Blocks...)
+		}
+	}
+	for _, b := range scan {
 		for _, in := range b.Instrs {
 			switch x := in.(type) {
 			case *ssa.Lookup:
@@ -1004,6 +1074,19 @@ func c09R2(c *Ctx, r *Report, rule string) {
 		}
 	}
 	_ = tbl
+	// the table is consulted, filled and cleaned: one of each at least
+	kinds := map[string]int{}
+	for _, o := range r.Obls {
+		if o.Rule == rule {
+			for _, k := range []string{"lookup#", "insert#", "delete#"} {
+				if strings.Contains(o.Key, "|"+k) {
+					kinds[k]++
+				}
+			}
+		}
+	}
+	r.check(kinds["lookup#"] >= 1 && kinds["insert#"] >= 1 && kinds["delete#"] >= 1, rule, name, "table is looked up, filled and cleaned", c.pos(fn.Pos()), fmt.Sprintf("%d lookup(s), %d insert(s), %d delete(s)", kinds["lookup#"], kinds["insert#"], kinds["delete#"]),
+		fmt.Sprintf("the association table has %d lookup(s), %d insert(s), %d delete(s): without an insert every datagram starts a new virtual connection, without a delete a finished association swallows the client's later datagrams", kinds["lookup#"], kinds["insert#"], kinds["delete#"]))
 	// notifications
 	uses := c.channelUses()
 	m := 0
@@ -1120,12 +1203,14 @@ func c09R4(c *Ctx, r *Report, rule string) {
 					cal := x.Call.StaticCallee()
 					isCtor := cal != nil && len(returnsOf(cal)) > 0
 					if isCtor {
+						// every *packetConn it returns is freshly created or found in a table of associations
 						for _, rv := range returnsOf(cal) {
 							for _, res := range rv.Results {
-								for _, r2 := range addrRoots(res) {
-									if al, ok := r2.(*ssa.Alloc); !ok || namedName(deref(al.Type())) != "layer4.packetConn" {
-										isCtor = false
-									}
+								if namedName(deref(res.Type())) != "layer4.packetConn" {
+									continue
+								}
+								if !assocValue(res, map[ssa.Value]bool{}) {
+									isCtor = false
 								}
 							}
 						}
@@ -1566,9 +1651,10 @@ func runC13(c *Ctx, r *Report) {
 	c13R2(c, r, "C13.R2")
 	c13R3(c, r, "C13.R3")
 	c13R4(c, r, "C13.R4")
+	c13Loop(c, r, "C13.R11")
 	c13R6(c, r, "C13.R6")
 	c13R10(c, r, "C13.R10")
-	c01R2(c, r, "C13.R9") // what the consumer of the wrapped listener reads starts at the first unconsumed byte: freeze/unfreeze restore exactly the cursor
+	c01R2(c, r, "C13.R9")  // what the consumer of the wrapped listener reads starts at the first unconsumed byte: freeze/unfreeze restore exactly the cursor
 	c05R23(c, r, "C13.R8") // the hand-off is a fallback: it must run with the matching deadline cleared, or the consumer's reads time out
 	// R7
 	r.rule("C13.R7", "bounded abstract interpretation of the compiled route handler (0..3 routes): after a terminal route nothing runs - in particular the hand-off fallback is not called - and the fallback is called at most once", 4)
@@ -1602,7 +1688,7 @@ func runC13(c *Ctx, r *Report) {
 }
 
 func c13R2(c *Ctx, r *Report, rule string) {
-	r.rule(rule, "pipeConnection (path-evaluated over 'no TLS state', 'empty TLS state list', 'TLS state recorded') sends exactly once on the hand-off channel and returns errHijacked; listenerHandler.Handle returns pipeConnection's result unchanged", 4)
+	r.rule(rule, "pipeConnection (path-evaluated over 'no TLS state', 'empty TLS state list', 'TLS state recorded') sends exactly once on the hand-off channel - the connection itself, or with a recorded TLS state a tlsConnection around it exposing the last state - and returns errHijacked; listenerHandler.Handle returns pipeConnection's result unchanged", 4)
 	fnName := "layer4.(*listener).pipeConnection"
 	fn := c.Fn(fnName)
 	if fn == nil {
@@ -1641,6 +1727,23 @@ func c13R2(c *Ctx, r *Report, rule string) {
 					if e.What != "recv.connChan" {
 						problems = append(problems, "send on "+e.What)
 					}
+					// what is delivered: the connection itself, or - when a TLS state was recorded by a terminating
+					// handler - a wrapper around it that exposes the last recorded state
+					sent := ""
+					if len(e.Args) > 0 {
+						sent = e.Args[0]
+					}
+					if w.isNil || w.n == 0 {
+						if sent != "conn" {
+							problems = append(problems, "without a recorded TLS state the layer4 connection itself must be delivered, delivers "+sent)
+						}
+					} else {
+						inner, state := p.Heap[sent+".Conn"].Desc, p.Heap[sent+".connState"].Desc
+						wantIdx := fmt.Sprintf("[%d]", w.n-1)
+						if !strings.Contains(sent, "tlsConnection") || inner != "conn" || !strings.HasSuffix(state, wantIdx) || !strings.HasPrefix(state, "states") {
+							problems = append(problems, fmt.Sprintf("with %d recorded TLS state(s) the wrapped listener must get a tlsConnection around the connection exposing the last state; it gets %s (Conn=%s, state=%s): the TLS connection state is not exposed to the wrapped server", w.n, sent, inner, state))
+						}
+					}
 				}
 			}
 			if sends != 1 {
@@ -1668,47 +1771,90 @@ func c13R2(c *Ctx, r *Report, rule string) {
 }
 
 func c13R3(c *Ctx, r *Report, rule string) {
-	r.rule(rule, "release consistency in listener.handle: conn.Close() and bufPool.Put(buf) run under the same guard, and that guard is 'the handler chain did not report errHijacked'", 2)
+	r.rule(rule, "release consistency in listener.handle (path evaluation over the route handler's result nil / errHijacked / another error, deferred closures included): conn.Close() and bufPool.Put(buf) run exactly once iff the handler chain did not report errHijacked, and never when it did", 2)
 	fn := c.Fn("layer4.(*listener).handle")
 	if fn == nil {
 		r.bad(rule, "layer4.(*listener).handle", "exists", "-", "function not found")
 		return
 	}
 	name := fname(fn)
-	hijackGuard := func(in ssa.Instruction) bool {
-		for _, cd := range edgeConds(in.Block()) {
-			if cl, ok := cd.V.(*ssa.Call); ok && calleeID(cl) == "errors.Is" && !cd.Truth && hasOrigin(origins(cl.Call.Args[1], sliceOpts{}), "global", "layer4.errHijacked") {
-				// the tested error must be the route handler's result
-				for _, o := range origins(cl.Call.Args[0], sliceOpts{}) {
-					if o.Kind == "call" && strings.HasSuffix(o.Desc, "Handler.Handle") {
-						return true
-					}
-				}
+	sc := &Scenario{Name: "release", MaxVisit: 4,
+		Params: map[string]SV{"recv": symRef("l", false), "p0": symRef("conn", false)},
+		Heap:   map[string]SV{"l.compiledRoute": symRef("route", false), "l.logger": symRef("logger", false), "l.wg": symRef("wg", false)},
+		Inline: func(f *ssa.Function) bool { return f.Parent() == fn },
+	}
+	sc.Call = func(callee string, args []SV, ev *symEval, st *symState) (SV, bool) {
+		switch {
+		case callee == "(*sync.Pool).Get":
+			l, cp := symInt(0), symInt(8192)
+			return SV{K: "ref", Known: true, Desc: "pooled", Dyn: "[]byte", Len: &l, Cap: &cp}, true
+		case callee == "layer4.WrapConnection":
+			return symRef("cx", false), true
+		case strings.HasPrefix(callee, "(*go.uber.org/zap.Logger)"), strings.HasPrefix(callee, "go.uber.org/zap."), callee == "time.Now", callee == "time.Since", strings.HasPrefix(callee, "context."),
+			strings.Contains(callee, "RemoteAddr"), strings.HasSuffix(callee, "Addr.String"), strings.Contains(callee, "atomic.Uint64"):
+			return symOpaque(shortCallee(callee)), true
+		}
+		return SV{}, false
+	}
+	sc.Alts = func(callee string, args []SV, ev *symEval, st *symState) []CallAlt {
+		if callee == "invoke layer4.Handler.Handle" {
+			return []CallAlt{
+				{Ret: symNil(), Note: "nil"},
+				{Ret: SV{K: "ref", Known: true, Desc: "global:layer4.errHijacked"}, Note: "hijacked"},
+				{Ret: SV{K: "ref", Known: true, Desc: "errOther"}, Note: "error"},
 			}
 		}
-		return false
+		return nil
 	}
-	closeOK, putOK := false, false
-	closeFound, putFound := false, false
-	for _, d := range deferredCalls(fn) {
-		if calleeID(d) == "(*sync.Pool).Put" {
-			putFound = true // unconditional
+	paths, err := evalPaths(fn, sc)
+	if err != nil || len(paths) == 0 {
+		r.bad(rule, name, "Close unless hijacked", c.pos(fn.Pos()), fmt.Sprintf("undecided: %v", err))
+		r.bad(rule, name, "Put unless hijacked", c.pos(fn.Pos()), fmt.Sprintf("undecided: %v", err))
+		return
+	}
+	var pClose, pPut []string
+	seenOutcome := map[string]bool{}
+	for _, p := range paths {
+		if p.Outcome != "return" {
+			pClose = append(pClose, "undecided path: "+fmtTrace(p))
+			continue
 		}
-		if cl := closureOf(d.Call.Value); cl != nil {
-			for _, ci := range callsIn(cl) {
-				if isInvoke(ci, "Close") {
-					closeFound = true
-					closeOK = hijackGuard(ci)
-				}
-				if calleeID(ci) == "(*sync.Pool).Put" {
-					putFound = true
-					putOK = hijackGuard(ci)
-				}
+		outcome := ""
+		closes, puts := 0, 0
+		for _, e := range p.Trace {
+			if e.Kind != "call" {
+				continue
+			}
+			switch {
+			case e.What == "invoke layer4.Handler.Handle":
+				outcome = e.Note
+			case e.What == "invoke net.Conn.Close" && len(e.Args) > 0 && e.Args[0] == "conn":
+				closes++
+			case e.What == "(*sync.Pool).Put":
+				puts++
 			}
 		}
+		if outcome == "" {
+			pClose = append(pClose, "the route handler is not run on a path: "+fmtTrace(p))
+			continue
+		}
+		seenOutcome[outcome] = true
+		want := 1
+		if outcome == "hijacked" {
+			want = 0
+		}
+		if closes != want {
+			pClose = append(pClose, fmt.Sprintf("route handler result %s: conn.Close() runs %d time(s), expected %d", outcome, closes, want))
+		}
+		if puts != want {
+			pPut = append(pPut, fmt.Sprintf("route handler result %s: bufPool.Put runs %d time(s), expected %d", outcome, puts, want))
+		}
 	}
-	r.check(closeFound && closeOK, rule, name, "Close unless hijacked", c.pos(fn.Pos()), "the connection is closed iff it was not handed off", "conn.Close() is not guarded by exactly 'error is not errHijacked' of the route handler's result")
-	r.check(putFound && putOK, rule, name, "Put unless hijacked", c.pos(fn.Pos()), "the pooled buffer is recycled iff the connection was not handed off", "the pooled matching buffer is returned although the connection may have been handed to the wrapped listener, which still replays prefetched bytes from it: another connection's prefetch overwrites them")
+	if len(seenOutcome) != 3 {
+		pClose = append(pClose, fmt.Sprintf("only %d of the 3 handler results were explored", len(seenOutcome)))
+	}
+	r.check(len(pClose) == 0, rule, name, "Close unless hijacked", c.pos(fn.Pos()), fmt.Sprintf("%d paths: the connection is closed iff it was not handed off", len(paths)), "conn.Close() does not run exactly when the route handler's result is not errHijacked: "+strings.Join(dedup(pClose), "; "))
+	r.check(len(pPut) == 0, rule, name, "Put unless hijacked", c.pos(fn.Pos()), "the pooled buffer is recycled iff the connection was not handed off", "the pooled matching buffer is returned although the connection may have been handed to the wrapped listener, which still replays prefetched bytes from it (another connection's prefetch overwrites them), or it is not returned at all: "+strings.Join(dedup(pPut), "; "))
 }
 
 func c13R4(c *Ctx, r *Report, rule string) {
@@ -1847,8 +1993,19 @@ func c13R4(c *Ctx, r *Report, rule string) {
 	// close(done)
 	okDoneCh := false
 	for _, u := range uses["field layer4.listener.done"] {
-		if u.kind == "close" && u.fn == loop && !inLoop(u.in.Block()) {
+		if u.kind != "close" || inLoop(u.in.Block()) {
+			continue
+		}
+		if u.fn == loop {
 			okDoneCh = true
+			continue
+		}
+		// in a helper the loop calls once, after (outside) the accept loop
+		sites, escapes := c.callSitesOf(u.fn)
+		if !escapes && len(sites) == 1 && sites[0].Parent() == loop && !inLoop(sites[0].Block()) {
+			if _, plain := sites[0].(*ssa.Call); plain {
+				okDoneCh = true
+			}
 		}
 	}
 	r.check(okDoneCh, rule, fname(loop), "close(done) after accept loop", c.pos(loop.Pos()), "waiting Accept calls are released", "done is not closed once after the accept loop")
@@ -1871,11 +2028,37 @@ func c13R4(c *Ctx, r *Report, rule string) {
 			goodAcc = false
 			continue
 		}
+		if os.Getenv("L4V_DEBUG") != "" {
+			fmt.Fprintln(os.Stderr, "ACCEPT", fmtTrace(p), "ASSUME", p.Assume, "FIRED", selectFired(p))
+		}
 		isConn := strings.Contains(p.Ret[0].Desc, "select#") && p.Ret[1].Known && p.Ret[1].Nil
 		isClosed := p.Ret[0].Known && p.Ret[0].Nil && strings.Contains(p.Ret[1].Desc, "net.ErrClosed")
 		if !isConn && !isClosed {
 			goodAcc = false
 			detail = "returns (" + p.retDesc() + ")"
+		}
+		// which answer belongs to which event: a connection received from the hand-off channel (ok) is returned,
+		// a closed channel or the done signal reports closure
+		fired := strings.Join(selectFired(p), ",")
+		received, okKnown := false, false
+		for _, a := range p.Assume {
+			if strings.HasSuffix(a, ".ok=true") {
+				received, okKnown = true, true
+			}
+			if strings.HasSuffix(a, ".ok=false") {
+				okKnown = true
+			}
+		}
+		switch {
+		case strings.Contains(fired, "connChan") && okKnown && received && !isConn:
+			goodAcc = false
+			detail = "a connection received from the hand-off channel is not returned (" + p.retDesc() + "): it is delivered to nobody"
+		case strings.Contains(fired, "connChan") && okKnown && !received && !isClosed:
+			goodAcc = false
+			detail = "a closed hand-off channel is answered with (" + p.retDesc() + ") instead of net.ErrClosed"
+		case strings.Contains(fired, "done") && !isClosed:
+			goodAcc = false
+			detail = "the done signal is answered with (" + p.retDesc() + ")"
 		}
 	}
 	r.check(goodAcc && sawSelect, rule, fname(accept), "Accept", c.pos(accept.Pos()), fmt.Sprintf("%d paths: a received connection or net.ErrClosed", len(paths)), "Accept does not select on connChan and done / does not report net.ErrClosed: "+detail)
@@ -2188,4 +2371,282 @@ func c13R10(c *Ctx, r *Report, rule string) {
 		}
 	}
 	r.check(good, rule, fname(fn), "temporary accept errors are retried", c.ipos(accept), "a temporary accept error leads back to Accept", "no branch on the accept error being temporary leads back to Accept: one transient error (too many open files, aborted connection) ends the loop although the listener is open - `done` is closed, pending connections are dropped and later clients are never served")
+}
+
+// c13Loop evaluates the accept loop of the wrapped listener over the outcomes of Accept (a connection / an error
+// that is or is not a temporary net.Error, listener closed or not), two iterations deep.
+func c13Loop(c *Ctx, r *Report, rule string) {
+	r.rule(rule, "accept loop (path evaluation, 2 iterations, Accept -> connection | error x errors.As x Temporary() x closed): an accepted connection is counted with wg.Add(1) and handed to exactly one go handle(conn); an error is retried iff it is a temporary net.Error and the listener is not closed; any other error ends the loop, after which done is closed once and no further Accept happens", 1)
+	fn := c.Fn("layer4.(*listener).loop")
+	if fn == nil {
+		r.bad(rule, "layer4.(*listener).loop", "exists", "-", "function not found")
+		return
+	}
+	name := fname(fn)
+	nAcc := 0
+	sc := &Scenario{Name: "loop", MaxVisit: 3, MaxPaths: 20000,
+		Params: map[string]SV{"recv": symRef("l", false)},
+		Heap:   map[string]SV{"l.wg": symRef("wg", false), "l.logger": symRef("logger", false), "l.connChan": symRef("connChan", false), "l.done": symRef("done", false)},
+	}
+	sc.Call = func(callee string, args []SV, ev *symEval, st *symState) (SV, bool) {
+		switch {
+		case strings.HasPrefix(callee, "(*go.uber.org/zap.Logger)"), strings.HasPrefix(callee, "go.uber.org/zap."):
+			return symOpaque("log"), true
+		case callee == "errors.As" && len(args) == 2 && args[0].K == "ref" && args[0].Known && args[0].Nil:
+			return symBool(false), true
+		}
+		return SV{}, false
+	}
+	sc.Alts = func(callee string, args []SV, ev *symEval, st *symState) []CallAlt {
+		switch {
+		case callee == "invoke net.Listener.Accept":
+			nAcc++
+			conn := symRef(fmt.Sprintf("conn%d", nAcc), false)
+			return []CallAlt{
+				{Ret: symTuple(conn, symNil()), Note: "conn:" + conn.Desc},
+				{Ret: symTuple(symNil(), SV{K: "ref", Known: true, Desc: "acceptErr"}), Note: "error"},
+			}
+		case callee == "errors.As":
+			if len(args) == 2 && args[0].K == "ref" && args[0].Known && args[0].Nil {
+				return []CallAlt{{Ret: symBool(false), Note: "nil"}}
+			}
+			return []CallAlt{{Ret: symBool(true), Note: "neterr"}, {Ret: symBool(false), Note: "other"}}
+		case strings.HasSuffix(callee, ".Temporary"):
+			return []CallAlt{{Ret: symBool(true), Note: "temporary"}, {Ret: symBool(false), Note: "permanent"}}
+		case strings.HasSuffix(callee, "atomic.Bool).Load"):
+			return []CallAlt{{Ret: symBool(true), Note: "closed"}, {Ret: symBool(false), Note: "open"}}
+		}
+		return nil
+	}
+	paths, err := evalPaths(fn, sc)
+	if err != nil || len(paths) == 0 {
+		r.bad(rule, name, "accept loop", c.pos(fn.Pos()), fmt.Sprintf("undecided: %v", err))
+		return
+	}
+	var problems []string
+	ended, retried, handled := 0, 0, 0
+	for i, p := range paths {
+		if os.Getenv("L4V_DEBUG") != "" && i < 4 {
+			fmt.Fprintln(os.Stderr, "LOOP", fmtTrace(p))
+		}
+		if p.Outcome == "panic" {
+			problems = append(problems, "a path panics: "+fmtTrace(p))
+			continue
+		}
+		// split the trace into iterations at the Accept calls
+		type iter struct {
+			outcome               string
+			as, temp, closed      string
+			adds                  []string
+			gos                   []string
+			closesDone, acceptsAf int
+		}
+		var its []*iter
+		var cur *iter
+		over := false // the loop has ended (an error that is not retried)
+		for _, e := range p.Trace {
+			switch {
+			case e.Kind == "call" && e.What == "invoke net.Listener.Accept":
+				if over {
+					problems = append(problems, "Accept is called again after the loop ended with an error")
+				}
+				cur = &iter{outcome: e.Note}
+				its = append(its, cur)
+			case cur == nil:
+			case e.Kind == "call" && e.What == "errors.As":
+				cur.as = e.Note
+			case e.Kind == "call" && strings.HasSuffix(e.What, ".Temporary"):
+				cur.temp = e.Note
+			case e.Kind == "call" && strings.HasSuffix(e.What, "atomic.Bool).Load"):
+				cur.closed = e.Note
+			case e.Kind == "call" && e.What == "(*sync.WaitGroup).Add" && len(e.Args) == 2:
+				cur.adds = append(cur.adds, e.Args[1])
+			case e.Kind == "go" && strings.HasSuffix(e.What, "(*listener).handle"):
+				cur.gos = append(cur.gos, e.Args[len(e.Args)-1])
+			case e.Kind == "call" && e.What == "builtin close" && len(e.Args) == 1 && e.Args[0] == "done":
+				cur.closesDone++
+				over = true
+			}
+		}
+		if p.Outcome == "cutoff" && len(its) > 0 {
+			// the exploration bound cut the last iteration short: only complete iterations are judged, except that a
+			// loop which ended must not have accepted again (checked above)
+			if its[len(its)-1].closesDone == 0 {
+				its = its[:len(its)-1]
+			}
+		}
+		for i, it := range its {
+			last := i == len(its)-1
+			switch {
+			case strings.HasPrefix(it.outcome, "conn:"):
+				conn := strings.TrimPrefix(it.outcome, "conn:")
+				handled++
+				if len(it.gos) != 1 || it.gos[0] != conn {
+					problems = append(problems, fmt.Sprintf("an accepted connection %s is handed to %v (expected exactly one go handle(%s))", conn, it.gos, conn))
+				}
+				if len(it.adds) != 1 || it.adds[0] != "1" {
+					problems = append(problems, fmt.Sprintf("an accepted connection is counted with wg.Add%v (expected one Add(1) before its handler starts)", it.adds))
+				}
+				if it.closesDone > 0 {
+					problems = append(problems, "the loop ends after a successful Accept")
+				}
+			default:
+				retry := it.as == "neterr" && it.temp == "temporary" && it.closed == "open"
+				if len(it.gos) > 0 || len(it.adds) > 0 {
+					problems = append(problems, "a handler is started although Accept returned an error (nil connection)")
+				}
+				if retry {
+					retried++
+					if it.closesDone > 0 || (last && p.Outcome == "return") {
+						problems = append(problems, "a temporary accept error on an open listener ends the accept loop instead of being retried")
+					}
+				} else {
+					ended++
+					if it.closesDone != 1 && !(last && p.Outcome == "cutoff" && it.closesDone == 1) {
+						problems = append(problems, fmt.Sprintf("an accept error that is not a temporary error of an open listener (net.Error:%s %s, listener %s) does not end the loop with close(done) exactly once (closed %d times)", it.as, it.temp, it.closed, it.closesDone))
+					}
+				}
+			}
+		}
+	}
+	if ended == 0 || retried == 0 || handled == 0 {
+		problems = append(problems, fmt.Sprintf("the evaluation did not exercise all three outcomes (handled %d, retried %d, ended %d)", handled, retried, ended))
+	}
+	r.check(len(problems) == 0, rule, name, "accept loop", c.pos(fn.Pos()), fmt.Sprintf("%d paths: %d accepted connections handled, %d retries, %d loop ends", len(paths), handled, retried, ended), strings.Join(dedup(problems), "; "))
+}
+
+// c09Reader evaluates the socket reader of servePacket (the function that calls ReadFrom) over the outcomes of
+// ReadFrom, two iterations deep.
+func c09Reader(c *Ctx, r *Report, rule string) {
+	r.rule(rule, "socket reader (path evaluation, ReadFrom -> datagram | error x errors.As x Timeout()): a datagram is sent on as one record carrying the pooled buffer it was read into, its length and its source address, and reading continues; a timeout error is skipped and reading continues; any other error is sent on as an error record, after which nothing more is read", 1)
+	var fn *ssa.Function
+	for _, f := range c.Funcs {
+		if f.Pkg == nil || short(f.Pkg.Pkg.Path()) != "layer4" {
+			continue
+		}
+		for _, ci := range callsIn(f) {
+			if isInvoke(ci, "ReadFrom") {
+				fn = f
+			}
+		}
+	}
+	if fn == nil {
+		r.bad(rule, "layer4", "socket reader", "-", "no function of package layer4 calls ReadFrom")
+		return
+	}
+	name := fname(fn)
+	nRead := 0
+	sc := &Scenario{Name: "reader", MaxVisit: 3, MaxPaths: 20000, ByType: map[string]SV{"net.PacketConn": symRef("sock", false)}}
+	sc.Call = func(callee string, args []SV, ev *symEval, st *symState) (SV, bool) {
+		if callee == "(*sync.Pool).Get" {
+			nRead++
+			l := symInt(9216)
+			return SV{K: "ref", Known: true, Desc: fmt.Sprintf("pooled%d", nRead), Dyn: "[]byte", Len: &l, Cap: &l}, true
+		}
+		return SV{}, false
+	}
+	sc.Alts = func(callee string, args []SV, ev *symEval, st *symState) []CallAlt {
+		switch {
+		case callee == "invoke net.PacketConn.ReadFrom":
+			buf := ""
+			if len(args) > 1 {
+				buf = args[1].Desc
+			}
+			return []CallAlt{
+				{Ret: symTuple(SV{K: "int", Desc: "n(" + buf + ")"}, symRef("addr("+buf+")", false), symNil()), Note: "datagram:" + buf},
+				{Ret: symTuple(symInt(0), symNil(), SV{K: "ref", Known: true, Desc: "readErr"}), Note: "error"},
+			}
+		case callee == "errors.As":
+			if len(args) == 2 && args[0].K == "ref" && args[0].Known && args[0].Nil {
+				return []CallAlt{{Ret: symBool(false), Note: "nil"}}
+			}
+			return []CallAlt{{Ret: symBool(true), Note: "neterr"}, {Ret: symBool(false), Note: "other"}}
+		case strings.HasSuffix(callee, ".Timeout"):
+			return []CallAlt{{Ret: symBool(true), Note: "timeout"}, {Ret: symBool(false), Note: "no timeout"}}
+		}
+		return nil
+	}
+	paths, err := evalPaths(fn, sc)
+	if err != nil || len(paths) == 0 {
+		r.bad(rule, name, "socket reader", c.pos(fn.Pos()), fmt.Sprintf("undecided: %v", err))
+		return
+	}
+	var problems []string
+	datagrams, skipped, ended := 0, 0, 0
+	for _, p := range paths {
+		if p.Outcome == "panic" {
+			problems = append(problems, "a path panics: "+fmtTrace(p))
+			continue
+		}
+		type iter struct {
+			outcome, as, to string
+			sends           []string
+		}
+		var its []*iter
+		var cur *iter
+		over := false
+		for _, e := range p.Trace {
+			switch {
+			case e.Kind == "call" && e.What == "invoke net.PacketConn.ReadFrom":
+				if over {
+					problems = append(problems, "the socket is read again after a fatal read error was reported")
+				}
+				cur = &iter{outcome: e.Note}
+				its = append(its, cur)
+			case cur == nil:
+			case e.Kind == "call" && e.What == "errors.As":
+				cur.as = e.Note
+			case e.Kind == "call" && strings.HasSuffix(e.What, ".Timeout"):
+				cur.to = e.Note
+			case e.Kind == "send" && len(e.Args) == 1:
+				cur.sends = append(cur.sends, e.Args[0])
+			}
+			if cur != nil && cur.outcome == "error" && e.Kind == "send" {
+				over = true
+			}
+		}
+		if p.Outcome == "cutoff" && len(its) > 0 {
+			its = its[:len(its)-1]
+		}
+		for i, it := range its {
+			last := i == len(its)-1
+			switch {
+			case strings.HasPrefix(it.outcome, "datagram:"):
+				datagrams++
+				buf := strings.TrimPrefix(it.outcome, "datagram:")
+				if len(it.sends) != 1 {
+					problems = append(problems, fmt.Sprintf("a received datagram is sent on %d times", len(it.sends)))
+					continue
+				}
+				rec := it.sends[0]
+				get := func(f string) string { return p.Heap[rec+"."+f].Desc }
+				if get("pooledBuf") != buf || get("n") != "n("+buf+")" || get("addr") != "addr("+buf+")" {
+					problems = append(problems, fmt.Sprintf("the record sent for the datagram read into %s carries buffer %q, length %q, address %q", buf, get("pooledBuf"), get("n"), get("addr")))
+				}
+				if e := p.Heap[rec+".err"]; e.Desc != "" && !(e.Known && e.Nil) && !strings.HasPrefix(e.Desc, "zero") {
+					problems = append(problems, "a datagram record carries an error: "+e.Desc)
+				}
+				if last && p.Outcome == "return" {
+					problems = append(problems, "the reader stops after a datagram")
+				}
+			case it.as == "neterr" && it.to == "timeout":
+				skipped++
+				if len(it.sends) != 0 || (last && p.Outcome == "return") {
+					problems = append(problems, "a read timeout is reported or ends the reader instead of being skipped: the UDP server loop stops")
+				}
+			default:
+				ended++
+				if len(it.sends) != 1 || p.Heap[it.sends[0]+".err"].Desc != "readErr" {
+					problems = append(problems, fmt.Sprintf("a fatal read error is not passed on as exactly one error record (%d sends)", len(it.sends)))
+				}
+				if !(last && p.Outcome == "return") {
+					problems = append(problems, "the reader goes on after a fatal read error")
+				}
+			}
+		}
+	}
+	if datagrams == 0 || skipped == 0 || ended == 0 {
+		problems = append(problems, fmt.Sprintf("the evaluation did not exercise all outcomes (datagrams %d, timeouts %d, fatal errors %d)", datagrams, skipped, ended))
+	}
+	r.check(len(problems) == 0, rule, name, "socket reader", c.pos(fn.Pos()), fmt.Sprintf("%d paths: %d datagrams, %d timeouts skipped, %d fatal errors", len(paths), datagrams, skipped, ended), strings.Join(dedup(problems), "; "))
 }
